@@ -1,7 +1,7 @@
 """C08 - filter strings compile to the RFC 4511 filter they denote."""
 import os
 from facts import walk, callee_of, call_args, loc
-import hirq, anchors, absx, peg, cone, engine, unesc
+import hirq, anchors, absx, peg, cone, engine, unesc, sem
 from shapes import *
 
 EXPLANATION = ("P1 the PEG extracted from the nom combinator calls of src/filter.rs (resolved callees; let-chains, alt, delimited, preceded, "
@@ -355,32 +355,46 @@ def check_eq(ctx, f, inl):
         ctx.add('P3.shape', 'eq|%s|initial=%s' % (kind, 'empty' if ini_empty else 'present' if ini_empty is False else '-'), loc(B.root), not mism, '; '.join(mism)[:300] or 'matches RFC 4511')
     for need in ('equality', 'present', 'substrings', 'substrings|any', 'substrings|final'):
         ctx.add('P4.discrimination', need, loc(B.root), need in kinds, 'no path of eq() builds a filter of kind ' + need)
-    # adjacent asterisks: Err iff some element other than the last is empty
-    cl = [n for n, c in walk(B.root) if n['k'] == 'Closure']
-    ok = False
-    for c in cl:
-        b = c['body']
-        while b['k'] == 'Block' and not b['stmts'] and b.get('expr'):
-            b = b['expr']
-        if b['k'] == 'Binary' and b['op'] == 'Or' and len(c['params']) == 2:
-            acc = list(hirq.pat_bindings(c['params'][0]))
-            inner = list(hirq.pat_bindings(c['params'][1]))
-            r = b['r']
-            if acc and len(inner) == 2 and hirq.local_of(b['l']) == acc[0][0] and r['k'] == 'Binary' and r['op'] == 'And':
-                nb, veb = inner[0][0], inner[1][0]
-                e1, e2 = r['l'], r['r']
-                c1 = e1['k'] == 'MethodCall' and e1['name'] == 'is_empty' and hirq.local_of(e1['recv']) == veb
-                c2 = e2['k'] == 'Binary' and e2['op'] == 'Ne' and e2['l']['k'] == 'Binary' and e2['l']['op'] == 'Add' and hirq.local_of(e2['l']['l']) == nb \
-                    and hirq.const_eval(f, e2['l']['r']) == 1 and e2['r']['k'] == 'MethodCall' and e2['r']['name'] == 'len'
-                ok = c1 and c2
-    ctx.add('P4.adjacent-asterisks', 'eq', loc(B.root), ok, 'the substring list must be rejected exactly when an element other than the last is empty (`acc || ve.is_empty() && n + 1 != v.len()`)')
-    folds = [n for n, c in walk(B.root) if n['k'] == 'MethodCall' and n['name'] == 'fold']
-    okf = len(folds) == 1 and hirq.const_eval(f, folds[0]['args'][0]) is False
-    iff = [n for n, c in walk(B.root) if n['k'] == 'If' and any(x is folds[0] for x, _ in walk(n['cond']))] if folds else []
-    okf = okf and len(iff) == 1 and any(hirq.short_def(x['f'].get('def', '')) == 'Err' for x, _ in walk(iff[0]['then']) if x['k'] == 'Call') \
-        and any(hirq.short_def(x['f'].get('def', '')) == 'Ok' for x, _ in walk(iff[0]['els']) if x['k'] == 'Call')
-    ctx.add('P4.adjacent-asterisks.rejects', 'eq', loc(B.root), okf, 'the fold must start from false and its truth must reject the filter')
-
+    # adjacent asterisks, on the enumerated paths: the filter is rejected exactly on the paths where *some* element of the
+    # substring list satisfies "empty and not the last one" (as a fold over `||` or as any(); see absx), accepted otherwise
+    # (the test lives in the semantic action of the `*`-list parser: the closure that receives the parsed list)
+    I4 = absx.Interp(f, B, inline=inl, for_once=True, combinators=True)
+    acts = [n for n, c in walk(B.root) if n['k'] == 'Closure' and len(n['params']) == 1 and hirq.strip_refs(n['params'][0].get('ty') or '') == 'alloc::vec::Vec<alloc::vec::Vec<u8>>']
+    outs = []
+    LIST = ('param', 'list')
+    for a_ in acts:
+        outs += [o for o in I4.apply_closure(('closure', a_['def']), [LIST], absx.St({}), a_) if o.kind in ('val', 'ret')]
+    midfinal = lambda t, env: t == LIST
+    def pred_ok(conds):
+        """every way the predicate holds is: the element is empty, and its position is not the last (one of the spellings)"""
+        if not conds:
+            return False
+        for cnd in conds:
+            empties = [(a, t) for a, t in cnd if a[0] == 'call' and a[1].endswith('::is_empty') and absx.leaves(a[2][0], lambda x: x[0] == 'elem')]
+            pos = [(a, t) for a, t in cnd if a[0] == 'bin' and absx.leaves(a, lambda x: x[0] == 'elem') and absx.leaves(a, lambda x: x[0] == 'call' and x[1].endswith('::len'))]
+            if len(empties) != 1 or empties[0][1] is not True or len(pos) != 1 or len(cnd) != 2:
+                return False
+            a, t = pos[0]
+            idx = lambda x: bool(absx.leaves(x, lambda y: y[0] == 'elem')) and not absx.leaves(x, lambda y: y[0] == 'call')
+            ln = lambda x: x[0] == 'call' and x[1].endswith('::len')
+            last = lambda x: (x[0] == 'bin' and x[1] == 'Add' and ln(x[2]) and x[3] == ('lit', -1)) or (x[0] == 'call' and x[1].endswith('wrapping_sub') and ln(x[2][0]) and x[2][1] == ('lit', 1)) \
+                or (x[0] == 'call' and x[1].endswith('saturating_sub') and ln(x[2][0]) and x[2][1] == ('lit', 1))
+            nxt = lambda x: x[0] == 'bin' and x[1] == 'Add' and idx(x[2]) and x[3] == ('lit', 1)
+            forms = [
+                a[1] == 'Eq' and nxt(a[2]) and ln(a[3]) and t is False,        # i + 1 != len
+                a[1] == 'Eq' and idx(a[2]) and last(a[3]) and t is False,      # i != len - 1
+                a[1] == 'Lt' and nxt(a[2]) and ln(a[3]) and t is True,         # i + 1 < len
+                a[1] == 'Lt' and idx(a[2]) and last(a[3]) and t is True,       # i < len - 1
+            ]
+            if not any(forms):
+                return False
+        return True
+    anys = [(o, t, conds) for o in outs for t, src, el, conds in sem.search_atoms(o.st.pc, 'any')]
+    ok = bool(anys) and all(pred_ok(conds) for o, t, conds in anys) and all(midfinal(src, {}) or absx.leaves(src, lambda x: midfinal(x, {})) for o in outs for t, src, el, conds in sem.search_atoms(o.st.pc, 'any'))
+    ctx.add('P4.adjacent-asterisks', 'eq', loc(B.root), ok, 'the substring list must be rejected exactly when an element other than the last is empty (`ve.is_empty() && n + 1 != v.len()` for some element)')
+    okf = bool(anys) and all((sem.is_err_result(o.val)) == t for o, t, conds in anys) and any(t for o, t, c in anys) and any(not t for o, t, c in anys) \
+        and all(t or o.val == ('ctor', 'Ok', (LIST,)) for o, t, c in anys)
+    ctx.add('P4.adjacent-asterisks.rejects', 'eq', loc(B.root), okf, 'a list with an empty non-final element must be rejected, any other accepted')
 
 def check_unescaper(ctx, f):
     p = FP + 'Unescaper::feed'
